@@ -108,7 +108,7 @@ func runMutant(repo, patch, id string, pc PropConfig) (bool, string) {
 	}
 	qdir, _ := os.MkdirTemp("", "govc-mutq")
 	defer os.RemoveAll(qdir)
-	opt := solveOpts{dir: qdir, order: []string{"z3-new", "z3", "cvc5"}, timeoutS: 20, jobs: 6}
+	opt := solveOpts{dir: qdir, order: []string{"z3-new", "cvc5"}, timeoutS: 20, jobs: 5}
 	var failed []string
 	for _, n := range P.HarnessNames() {
 		h := P.harness[n]
